@@ -199,5 +199,5 @@ RATE_LIMITS = [
 ]
 
 PARTS = [
-    Part("mle", check_mle, strat_mle, quick=1200, thorough=30000, shrink_quick=False, min_nontrivial_frac=0.3),
+    Part("mle", check_mle, strat_mle, quick=1200, thorough=30000, shrink_quick=False, min_nontrivial_frac=0.25),
 ]
